@@ -110,6 +110,12 @@ impl Stats {
 
 pub fn gen_cfg(prop: &str, rng: &mut Rng) -> GenCfg {
     let mut c = GenCfg::default();
+    if cfg!(feature = "real") {
+        // engine R costs a few hundred microseconds per decision: smaller plans, more of them
+        c.max_sys = 8;
+        c.max_depth = 2;
+        return c;
+    }
     match prop {
         "C04" => {
             c.big = rng.chance(1, 25);
@@ -405,7 +411,7 @@ pub fn plan_runs(prop: &str, sc: &Scenario, infos: &[SysInfo], layout: &crate::b
         "C04" | "C13" => vec![],
         _ => infos.iter().filter(|i| i.kind != Kind::Tl).map(|i| i.sid).collect(),
     };
-    let cap = if thorough { 64 } else { 16 };
+    let cap = if cfg!(feature = "real") { 5 } else if thorough { 64 } else { 16 };
     if holds.len() > cap {
         rng.shuffle(&mut holds);
         holds.truncate(cap);
@@ -823,6 +829,9 @@ pub fn explore(prop: &str, seed: u64, thorough: bool, st: &mut Stats) -> Vec<Rep
     }
     let plan = plan_runs(prop, &sc, &b.ctx.infos, &b.layout, thorough, &mut rng);
     for p in plan {
+        if crate::driver::past_deadline() {
+            break;
+        }
         let has_rdv = p.sc.faults.iter().any(|f| f.kind == FaultKind::Rendezvous);
         *CUR.lock().unwrap() = Some((serde_json::to_value(&p.sc).unwrap(), p.mode.to_string(), p.strat.clone(), p.rs, seed, has_rdv));
         // the pool is part of the built dispatcher: a variant with another pool gets its own
